@@ -75,30 +75,37 @@ Qed.
 
 (* ---------- check_dirs ---------- *)
 Lemma check_dirs_ok f : forall rest acc,
-  (forall q r, q <> [] -> r <> [] -> rest = q ++ r -> is_link (fs_lookup f (acc ++ q)) = false) ->
+  (forall q r, q <> [] -> r <> [] -> rest = q ++ r ->
+     is_link (fs_lookup f (acc ++ q)) = false /\ is_file (fs_lookup f (acc ++ q)) = false) ->
   check_dirs f acc rest = true.
 Proof.
   induction rest as [|x rest IH]; intros acc Hc; simpl; [reflexivity|].
   destruct rest as [|y rest']; [reflexivity|].
-  rewrite (Hc [x] (y :: rest')); [|discriminate|discriminate|reflexivity]. simpl.
-  apply IH. intros q r Hq Hr E.
+  destruct (Hc [x] (y :: rest')) as [Hl Hf]; [discriminate|discriminate|reflexivity|].
+  rewrite Hl, Hf. simpl.
+  replace (match rest' with [] => true | _ :: _ => true end) with true by (destruct rest'; reflexivity).
+  simpl. apply IH. intros q r Hq Hr E.
   rewrite <- app_assoc. apply (Hc (x :: q) r); [discriminate|exact Hr|]. simpl. now rewrite E.
 Qed.
 
 Section RoundTrip.
-  Variables (pre : path) (umask : N) (preserve repro : bool) (isl : path -> bool).
+  Variables (pre : path) (umask : N) (preserve repro : bool) (isl isf : path -> bool).
 
   Definition links_sound (f : fs) : Prop :=
-    forall p tg, fs_lookup f p = Some (NLink tg) -> isl p = true.
+    (forall p tg, fs_lookup f p = Some (NLink tg) -> isl p = true) /\
+    (forall p c m, fs_lookup f p = Some (NFile c m) -> isf p = true).
 
   Lemma check_dirs_clear f : links_sound f -> forall rest acc,
-    prefixes_clear isl acc rest = true -> check_dirs f acc rest = true.
+    prefixes_clear isl isf acc rest = true -> check_dirs f acc rest = true.
   Proof.
-    intros Hs. induction rest as [|x rest IH]; intros acc Hc; simpl in *; [reflexivity|].
+    intros [Hs Hf]. induction rest as [|x rest IH]; intros acc Hc; simpl in *; [reflexivity|].
     destruct rest as [|y rest']; [reflexivity|].
-    apply andb_true_iff in Hc as [H1 H2]. rewrite (IH _ H2), andb_true_r.
-    destruct (fs_lookup f (acc ++ [x])) as [[| |tg]|] eqn:E; try reflexivity.
-    apply Hs in E. rewrite E in H1. discriminate.
+    apply andb_true_iff in Hc as [H1 H3]. apply andb_true_iff in H1 as [H1 H2].
+    rewrite (IH _ H3), andb_true_r.
+    destruct (fs_lookup f (acc ++ [x])) as [[c m|m|tg]|] eqn:E; simpl;
+      try (destruct rest'; reflexivity).
+    - destruct rest'; [reflexivity|]. apply Hf in E. rewrite E in H2. discriminate.
+    - apply Hs in E. rewrite E in H1. discriminate.
   Qed.
 
   (* ---------- modes ---------- *)
@@ -163,7 +170,7 @@ Section RoundTrip.
     check_dirs f [] rel = true.
   Proof.
     intro Hd. apply check_dirs_ok. intros q r _ Hr E. simpl.
-    destruct (Hd q r Hr E) as [m ->]. reflexivity.
+    destruct (Hd q r Hr E) as [m ->]. split; reflexivity.
   Qed.
 
   (* ---------- expected ---------- *)
@@ -195,7 +202,7 @@ Section RoundTrip.
   Definition subtree_spec (t : tree) : Prop :=
     forall rel f,
       rel <> [] ->
-      wf_treeb t = true -> modes_okb t = true -> benignb isl rel t = true ->
+      wf_treeb t = true -> modes_okb t = true -> benignb isl isf rel t = true ->
       (forall q r, r <> [] -> rel = q ++ r -> exists m, fs_lookup f q = Some (NDir m)) ->
       (forall p, fs_lookup f (rel ++ p) = None) ->
       links_sound f ->
@@ -210,7 +217,7 @@ Section RoundTrip.
       names_nodupb (map fst l) = true ->
       forallb (fun nc => wf_treeb (snd nc)) l = true ->
       forallb (fun nc => modes_okb (snd nc)) l = true ->
-      forallb (fun nc => benignb isl (rel ++ [fst nc]) (snd nc)) l = true ->
+      forallb (fun nc => benignb isl isf (rel ++ [fst nc]) (snd nc)) l = true ->
       fs_lookup g rel = Some (NDir md) ->
       (forall q r, r <> [] -> rel = q ++ r -> exists m, fs_lookup g q = Some (NDir m)) ->
       (forall n p, existsb (str_eqb n) (map fst l) = true -> fs_lookup g (rel ++ n :: p) = None) ->
@@ -225,7 +232,7 @@ Section RoundTrip.
         links_sound g'.
   Proof.
     induction l as [|[n0 c0] l IH]; intros HF g md Hnd Hwf Hmo Hbe Hrel Hpre Hfresh Hls.
-    - exists g. simpl. repeat split; auto.
+    - exists g. simpl. split; [reflexivity|]. split; [reflexivity|]. split; [reflexivity|exact Hls].
     - inversion HF as [|? ? Hc0 HF']; subst. simpl in *.
       apply andb_true_iff in Hnd as [Hn0 Hnd]. apply negb_true_iff in Hn0.
       apply andb_true_iff in Hwf as [Hwf0 Hwf].
@@ -277,8 +284,12 @@ Section RoundTrip.
           destruct preserve; repeat rewrite lookup_set_other by assumption; apply Hfresh.
       + intros q Hq. assert (rel <> q). { intro E. apply (Hq []). now rewrite app_nil_r. }
         destruct preserve; repeat rewrite lookup_set_other by assumption; reflexivity.
-      + intros p tg. destruct preserve; repeat rewrite lookup_set;
-          destruct (path_eqb rel p); try discriminate; apply Hls.
+      + simpl in Hbe. destruct Hls as [Hl1 Hl2]. split.
+        * intros p tg. destruct preserve; repeat rewrite lookup_set;
+            destruct (path_eqb rel p); try discriminate; apply Hl1.
+        * intros p c' m'. destruct preserve; repeat rewrite lookup_set;
+            destruct (path_eqb rel p) eqn:E; try apply Hl2;
+            apply path_eqb_spec in E; subst p; intros _; exact Hbe.
     - (* symlink *)
       simpl in Hbe.
       apply andb_true_iff in Hbe as [Hbe Hq]. apply andb_true_iff in Hbe as [Hisl Habs].
@@ -296,9 +307,11 @@ Section RoundTrip.
           unfold expected. simpl. apply Hfresh.
       + intros q Hq'. rewrite lookup_set_other; [reflexivity|].
         intro E. apply (Hq' []). now rewrite app_nil_r.
-      + intros p tg'. rewrite lookup_set. destruct (path_eqb rel p) eqn:E.
-        * apply path_eqb_spec in E. subst p. intros _. exact Hisl.
-        * apply Hls.
+      + destruct Hls as [Hl1 Hl2]. split.
+        * intros p tg'. rewrite lookup_set. destruct (path_eqb rel p) eqn:E.
+          -- apply path_eqb_spec in E. subst p. intros _. exact Hisl.
+          -- apply Hl1.
+        * intros p c' m'. rewrite lookup_set. destruct (path_eqb rel p); [discriminate|apply Hl2].
     - (* directory *)
       simpl in Hwf, Hmo, Hbe.
       apply andb_true_iff in Hwf as [Hnd Hwf]. apply andb_true_iff in Hmo as [Hm Hmo].
@@ -315,8 +328,11 @@ Section RoundTrip.
       assert (H2other : forall q, rel <> q -> fs_lookup f2 q = fs_lookup f q).
       { intros q Hq. unfold f2, f1. destruct preserve; repeat rewrite lookup_set_other by exact Hq; reflexivity. }
       assert (H2ls : links_sound f2).
-      { intros p tg. unfold f2, f1. destruct preserve; repeat rewrite lookup_set;
-          destruct (path_eqb rel p); try discriminate; apply Hls. }
+      { destruct Hls as [Hl1 Hl2]. split.
+        - intros p tg. unfold f2, f1. destruct preserve; repeat rewrite lookup_set;
+            destruct (path_eqb rel p); try discriminate; apply Hl1.
+        - intros p c' m'. unfold f2, f1. destruct preserve; repeat rewrite lookup_set;
+            destruct (path_eqb rel p); try discriminate; apply Hl2. }
       destruct (children_ok rel ch IHch f2 (restored_mode umask preserve m)) as (g' & E' & L' & F' & S'); auto.
       + intros q r Hr E. rewrite H2other; [eapply Hpre; eauto|].
         subst rel. intro E. symmetry in E. revert E. now apply app_neq_longer.
@@ -335,8 +351,8 @@ Section RoundTrip.
   (* ---------- the whole directory ---------- *)
   Lemma roundtrip_entries m mt ch :
     let T := Dir m mt ch in
-    wf_treeb T = true -> modes_okb T = true -> benignb isl [] T = true ->
-    (forall p tg, fs_lookup (fs_init umask) p = Some (NLink tg) -> isl p = true) ->
+    wf_treeb T = true -> modes_okb T = true -> benignb isl isf [] T = true ->
+    links_sound (fs_init umask) ->
     exists f', extract pre umask preserve (entries pre repro [] T) = Ok f' /\
       forall p, fs_lookup f' p = expected_impl umask preserve T p.
   Proof.
@@ -356,8 +372,11 @@ Section RoundTrip.
     { intros q Hq. unfold f2. destruct preserve; [rewrite lookup_set_other by exact Hq|];
         unfold f0, fs_init; simpl; destruct q; [contradiction|reflexivity|contradiction|reflexivity]. }
     assert (H2ls : links_sound f2).
-    { intros p tg. unfold f2. destruct preserve; [rewrite lookup_set; destruct (path_eqb [] p); [discriminate|]|];
-        apply Hls0. }
+    { destruct Hls0 as [Hl1 Hl2]. split.
+      - intros p tg. unfold f2. destruct preserve; [rewrite lookup_set; destruct (path_eqb [] p); [discriminate|]|];
+          apply Hl1.
+      - intros p c' m'. unfold f2. destruct preserve; [rewrite lookup_set; destruct (path_eqb [] p); [discriminate|]|];
+          apply Hl2. }
     destruct (children_ok [] ch) with (g := f2) (md := md) as (g' & E' & L' & F' & S'); auto.
     - clear. induction ch as [|nc ch IH]; constructor; [apply subtree_ok|exact IH].
     - intros q r Hr E. symmetry in E. apply app_eq_nil in E as [_ E]. contradiction.
@@ -382,8 +401,8 @@ Theorem roundtrip_impl pre umask preserve repro T :
     forall p, fs_lookup f' p = expected_impl umask preserve T p.
 Proof.
   intros Hd Hwf Hmo Hbe. destruct T as [| |m mt ch]; try discriminate.
-  apply (roundtrip_entries pre umask preserve repro (links_of (Dir m mt ch)) m mt ch Hwf Hmo Hbe).
-  intros p tg E. unfold fs_init in E. destruct p; simpl in E; discriminate.
+  apply (roundtrip_entries pre umask preserve repro (links_of (Dir m mt ch)) (files_of (Dir m mt ch)) m mt ch Hwf Hmo Hbe).
+  split; [intros p tg E|intros p c' m' E]; unfold fs_init in E; destruct p; simpl in E; discriminate.
 Qed.
 
 (* with PreservePermissions the restored directory is the source tree *)
